@@ -27,6 +27,8 @@ def obligations(tier):
     obs = [
         Ob("C20.record", F, "record", 200, what="object recorded exactly once; in report.feedback iff condition held and message rendered; bool(fb) == outcome; raising condition/message -> ignored list, status 'error', exception propagates; group parent notified once; delayed condition recorded only when handled"),
         Ob("C20.commands", F, "commands", 120, what="core commands recorded once, triggered iff activated"),
+        Ob("C20.named_parent", F, "named_parent", 120, what="parent given by name / number / an untriggered group: recorded once on the right side, truth value = outcome, no exception unless the condition raised"),
+        Ob("C20.logging_commands", F, "logging_commands", 60, what="log()/debug(): the recorded feedback delivers the items it was given"),
         Ob("C20.overrides", F, "overrides", 400, what="after clear_report()/contextualize_report() every class attribute (incl. inherited) has its original value and backups are empty; latest override visible before"),
         Ob("C20.overrides_reach", F, "overrides_reach", 60, expect="refute", what="twin: an override is visible to new instances"),
     ]
